@@ -30,6 +30,12 @@ def jobs(tier):
     J.append(Job("c10", "splice_src", "1,1,0,0" if q else "2,1,0,0", {"api": 0}, workers=8))
     J.append(Job("c10", "legacy", "2,0,0,0"))
     J.append(Job("c10", "legacy", "1,1,0,0"))
+    # remaining exported entry points: unlocked dequeue with state, legacy single-dequeuer entry point
+    J.append(Job("c10", "mpsc", "2,0,0,0", {"api": 4}))
+    J.append(Job("c10", "last", "2,0,0,0", {"api": 4}))
+    J.append(Job("c10", "last", "1,1,0,0", {"api": 4}))
+    J.append(Job("c10", "legacy", "2,0,0,0", {"single": 1}))
+    J.append(Job("c10", "legacy", "1,1,0,0", {"single": 1}))
     for api in (0, 1, 2, 3):     # deeper TSO budgets for the paths that end in a plain store
         J.append(Job("c10", "mpsc", "2,1,0,0", {"api": api}, workers=8))
         J.append(Job("c10", "splice", "2,1,0,0", {"api": api, "pre": 3}, workers=8))
